@@ -171,3 +171,85 @@ func verifNodes(rs roots) string {
 	}
 	return sb.String()
 }
+
+// VerifDumpRep lists, for every node of the published tree in the order of VerifDumpRouter, the fields derived from
+// the children when the node was built: "<childKeys hex>|<paramChildIndex>|<wildcardChildIndex>", entries separated
+// by ';'.
+func VerifDumpRep(r *Router) string { return verifDumpRep(r.getRoot().root) }
+
+// VerifDumpRepTxn is VerifDumpRep for the tree a transaction currently sees.
+func VerifDumpRepTxn(txn *Txn) string {
+	if txn.rootTxn == nil {
+		return ""
+	}
+	return verifDumpRep(txn.rootTxn.root)
+}
+
+func verifDumpRep(rs roots) string {
+	var sb strings.Builder
+	var walk func(n *node)
+	walk = func(n *node) {
+		sb.WriteString(verifHex(string(n.childKeys)))
+		sb.WriteByte('|')
+		sb.WriteString(strconv.Itoa(n.paramChildIndex))
+		sb.WriteByte('|')
+		sb.WriteString(strconv.Itoa(n.wildcardChildIndex))
+		sb.WriteByte(';')
+		for _, c := range n.children {
+			walk(c)
+		}
+	}
+	for _, n := range rs {
+		walk(n)
+	}
+	return sb.String()
+}
+
+// VerifEdgeCheck calls getEdge with every byte value on every node of the published tree and compares the answer
+// with a plain scan of the children by the first byte of their key. It returns "" when they agree everywhere and a
+// description of the first disagreement otherwise (a panic of getEdge is reported the same way).
+func VerifEdgeCheck(r *Router) (out string) {
+	defer func() {
+		if v := recover(); v != nil {
+			out = "getEdge panicked: " + fmtAny(v)
+		}
+	}()
+	var walk func(n *node) string
+	walk = func(n *node) string {
+		for b := 0; b < 256; b++ {
+			var want *node
+			for _, c := range n.children {
+				if len(c.key) > 0 && c.key[0] == byte(b) {
+					want = c
+					break
+				}
+			}
+			if got := n.getEdge(byte(b)); got != want {
+				return "getEdge(0x" + strconv.FormatInt(int64(b), 16) + ") on node " + verifHex(n.key) + " with " +
+					strconv.Itoa(len(n.children)) + " children differs from the scan of the children"
+			}
+		}
+		for _, c := range n.children {
+			if s := walk(c); s != "" {
+				return s
+			}
+		}
+		return ""
+	}
+	for _, n := range r.getRoot().root {
+		if s := walk(n); s != "" {
+			return s
+		}
+	}
+	return ""
+}
+
+func fmtAny(v any) string {
+	switch x := v.(type) {
+	case string:
+		return x
+	case error:
+		return x.Error()
+	}
+	return "non-string panic value"
+}
